@@ -58,10 +58,22 @@ def check_tree(seed, use_git):
         if use_git:
             subprocess.run(["git", "init", "-q", d], capture_output=True)
             pats = rnd.sample(rel, min(2, len(rel)))
+            # always: an ignored directory whose name and files contain spaces, and a kept file whose
+            # name is a fragment of an ignored path
+            os.makedirs(os.path.join(d, "ig dir"), exist_ok=True)
+            extra = ["ig dir/gen out.c", "ig dir/gen.c", "out.c", "gen.c"]
+            for e in extra:
+                if not os.path.exists(os.path.join(d, e)):
+                    with open(os.path.join(d, e), "w") as fh:
+                        fh.write(content("clean", os.path.basename(e)))
+                    allfiles.append(os.path.join(d, e))
+            rel = [os.path.relpath(p, d) for p in allfiles]
+            dirs = sorted({os.path.dirname(r) for r in rel if os.path.dirname(r)})
             with open(os.path.join(d, ".gitignore"), "w") as fh:
                 for p in pats:
                     fh.write("/" + p + "\n")
-            ignored = set(pats)
+                fh.write("/ig dir/\n")
+            ignored = set(pats) | {"ig dir/gen out.c", "ig dir/gen.c"}
         # argument lists: files, directories, both, none, with a missing path
         arglists = [[], ["."]]
         if rel:
